@@ -73,6 +73,17 @@ func init() {
 		"(*github.com/dgraph-io/badger/v3.Iterator).Close":             "IterClose",
 		"(*github.com/dgraph-io/badger/v3.Item).Key":                   "ItemKey",
 		"(*github.com/dgraph-io/badger/v3.Item).Value":                 "ItemValue",
+		"(*github.com/dgraph-io/badger/v3.Item).IsDeletedOrExpired":    "ItemIsDeletedOrExpired",
+		"(*github.com/dgraph-io/badger/v3.Item).Version":               "ItemVersion",
+		"(*github.com/dgraph-io/badger/v3.Item).UserMeta":              "ItemUserMeta",
+		"(*github.com/dgraph-io/badger/v3.Item).ExpiresAt":             "ItemExpiresAt",
+		"(*github.com/dgraph-io/badger/v3.Item).ValueSize":             "ItemValueSize",
+		"(*github.com/dgraph-io/badger/v3.Item).EstimatedSize":         "ItemEstimatedSize",
+		"(*github.com/dgraph-io/badger/v3.Item).KeyCopy":               "ItemKeyCopy",
+		"(*github.com/dgraph-io/badger/v3.Item).ValueCopy":             "ItemValueCopy",
+		"(*github.com/dgraph-io/badger/v3.Item).String":                "ItemString",
+		"(*github.com/dgraph-io/badger/v3.Iterator).Rewind":            "IterRewind",
+		"(*github.com/dgraph-io/badger/v3.Iterator).Valid":             "IterValid",
 		"google.golang.org/grpc/status.New":                            "StatusNew",
 		"google.golang.org/grpc/status.Convert":                        "StatusConvert",
 		"(*google.golang.org/grpc/internal/status.Status).WithDetails": "StatusWithDetails",
